@@ -387,7 +387,62 @@ fn host_args<'v>(heap: starlark::values::Heap<'v>, c: &Case) -> (Vec<Value<'v>>,
     (pos, named)
 }
 
+/// A call that repeats a name among its name=value arguments: only a host can issue it.
+fn host_only(c: &Case) -> bool {
+    c.named.iter().enumerate().any(|(i, (n, _))| c.named[..i].iter().any(|(m, _)| m == n))
+}
+
+/// Host-only cases: the def and the native function with the same signature, called through
+/// `Evaluator::eval_function`, before and after the module is frozen.
+fn run_chunk_host(sig: &[Param], cases: &[&Case], o: &Opts) -> Result<Vec<PathObs>, String> {
+    let (globals, _) = build_globals(sig);
+    let mut res: Vec<PathObs> = cases.iter().map(|_| Vec::new()).collect();
+    let src_a = format!("{}lam = lambda {}: [{}]\n", render_def("f", sig), render_params(sig),
+        sig.iter().map(|p| p.name.as_str()).collect::<Vec<_>>().join(", "));
+    let fa: FrozenModule = Module::with_temp_heap(|module| -> Result<FrozenModule, String> {
+        {
+            let mut eval = Evaluator::new(&module);
+            let ast = parse("a.star", src_a.clone()).map_err(|e| format!("parse A: {}", e))?;
+            eval.eval_module(ast, &globals).map_err(|e| format!("eval A: {}", e))?;
+            for (i, c) in cases.iter().enumerate() {
+                let (pos, named) = host_args(module.heap(), c);
+                let named: Vec<(&str, Value)> = named.iter().map(|(n, v)| (n.as_str(), *v)).collect();
+                if want(o, "host") {
+                    let f = module.get("f").ok_or("f missing")?;
+                    res[i].push(("host".to_owned(), observe(|| eval.eval_function(f, &pos, &named))));
+                    let f = module.get("lam").ok_or("lam missing")?;
+                    res[i].push(("host_lambda".to_owned(), observe(|| eval.eval_function(f, &pos, &named))));
+                }
+                if want(o, "host_native") {
+                    let nf = globals.iter().find(|(n, _)| *n == "nf").ok_or("nf missing")?.1.to_value();
+                    res[i].push(("host_native".to_owned(), observe(|| eval.eval_function(nf, &pos, &named))));
+                }
+            }
+        }
+        module.freeze().map_err(|e| format!("freeze A: {:?}", e))
+    })?;
+    Module::with_temp_heap(|module| -> Result<(), String> {
+        let mut eval = Evaluator::new(&module);
+        for (i, c) in cases.iter().enumerate() {
+            if want(o, "frozen_host") {
+                let f = fa.get_owned("f").map_err(|e| format!("frozen f: {}", e))?.add_to_heap(module.heap());
+                let (pos, named) = host_args(module.heap(), c);
+                let named: Vec<(&str, Value)> = named.iter().map(|(n, v)| (n.as_str(), *v)).collect();
+                res[i].push(("frozen_host".to_owned(), observe(|| eval.eval_function(f, &pos, &named))));
+            }
+        }
+        Ok(())
+    })?;
+    Ok(res)
+}
+
 fn run_chunk(sig: &[Param], cases: &[&Case], o: &Opts) -> Result<Vec<PathObs>, String> {
+    if cases.iter().all(|c| host_only(c)) {
+        return run_chunk_host(sig, cases, o);
+    }
+    if cases.iter().any(|c| host_only(c)) {
+        return Err("a chunk mixes host-only calls with calls that source code can make".to_owned());
+    }
     let (globals, nspec) = build_globals(sig);
     let mut res: Vec<PathObs> = cases.iter().map(|_| Vec::new()).collect();
 
@@ -572,6 +627,7 @@ fn run_chunk(sig: &[Param], cases: &[&Case], o: &Opts) -> Result<Vec<PathObs>, S
 #[derive(Default)]
 struct Tally {
     cases: usize,
+    host_only: usize,
     evals: usize,
     signatures: usize,
     chunks: usize,
@@ -612,6 +668,9 @@ fn source_of(c: &Case) -> String {
 /// Tally what the specification says about the case (counted for vacuity guards and evidence).
 fn tally_spec(t: &mut Tally, c: &Case) {
     t.cases += 1;
+    if host_only(c) {
+        t.host_only += 1;
+    }
     let class = if c.exp_ok { "ok".to_owned() } else { c.raw["err"].as_str().unwrap_or("?").to_owned() };
     *t.by_class.entry(class).or_insert(0) += 1;
     if c.exp_ok {
@@ -694,6 +753,7 @@ fn process_chunk(t: &mut Tally, ch: &[&Case], o: &Opts, verbose: bool) {
 
 fn merge(t: &mut Tally, l: Tally) {
     t.cases += l.cases;
+    t.host_only += l.host_only;
     t.evals += l.evals;
     t.chunks += l.chunks;
     t.nontrivial += l.nontrivial;
@@ -784,7 +844,7 @@ fn cmd_run(args: &[String]) -> anyhow::Result<()> {
     let mut dis = t.disagreements;
     dis.truncate(400);
     let out = json!({
-        "cases": t.cases, "evaluations": t.evals, "signatures": seen_sigs.len(), "chunks": t.chunks,
+        "cases": t.cases, "host_only": t.host_only, "evaluations": t.evals, "signatures": seen_sigs.len(), "chunks": t.chunks,
         "nontrivial": t.nontrivial,
         "by_class": t.by_class, "features": t.features,
         "by_path": t.by_path.iter().map(|(k, v)| (k.clone(), json!({"expected_ok": v[0], "expected_error": v[1]}))).collect::<serde_json::Map<_, _>>(),
